@@ -7,6 +7,7 @@ package work
 import (
 	"fmt"
 	"sort"
+	"time"
 
 	"verifsim/core"
 	"verifsim/rt"
@@ -76,6 +77,30 @@ func Guard(f func()) (panicked bool, msg string) {
 	f()
 	return
 }
+
+// GuardTimeout runs f on its own goroutine and reports whether it returned within d
+// of real time.  Used only where the property under check says "terminates": the
+// limit is many orders of magnitude above what the call takes (micro- to
+// milliseconds), so machine load cannot trip it; a call that does not return keeps
+// its goroutine spinning, so the worker stops starting new runs afterwards (Hung).
+func GuardTimeout(d time.Duration, f func()) (returned, panicked bool, msg string) {
+	done := make(chan struct{})
+	go func() {
+		defer close(done)
+		panicked, msg = Guard(f)
+	}()
+	select {
+	case <-done:
+		return true, panicked, msg
+	case <-time.After(d):
+		Hung = true
+		return false, false, ""
+	}
+}
+
+// Hung is set once a guarded call did not return; the worker finishes the current
+// run, reports, and exits.
+var Hung bool
 
 func b2i(b bool) int {
 	if b {
